@@ -247,19 +247,22 @@ def r172(P, u, rep):
     # same probe sequence in both functions
     seqs = {}
     for f in ('get_entry', 'get_or_insert_entry'):
-        itf = Interp(P, u, {'opaque': ['fnv_hash', 'match', 'rehash'], 'loop_limit': 2, 'lazy_field': _lazy_field})
+        itf = L.SlotInterp(P, u, {'opaque': ['fnv_hash', 'match', 'rehash'], 'loop_limit': 3, 'lazy_field': _lazy_field})
         labels = set()
         for ctx, out in itf.explore(f, _mk_map):
-            labs = tuple(x.label for x in _entries(ctx))
+            if out[0] != 'ret':
+                continue
+            labs = L.probe_sequence(ctx)
             if len(labs) >= 2:
+                labels.add(labs[:3])
                 labels.add(labs[:2])
         seqs[f] = labels
     rep.ob('R17.2', '%s:get_entry+get_or_insert_entry:same-probe-sequence' % U, bool(seqs['get_entry']) and seqs['get_entry'] == seqs['get_or_insert_entry'],
            'lookup and insertion do not visit the same slots in the same order: %r vs %r' % (sorted(seqs['get_entry']), sorted(seqs['get_or_insert_entry'])),
            where='%s:%d' % (U, u.fn('get_entry').line))
-    lab = sorted(seqs['get_entry'])[0] if seqs['get_entry'] else None
+    lab = sorted(seqs['get_entry'], key=len)[-1] if seqs['get_entry'] else None
     if lab:
-        rep.ob('R17.2', '%s:get_entry:probe-advances' % U, lab[0] != lab[1], 'two consecutive probe iterations visit the same slot', where='%s:%d' % (U, u.fn('get_entry').line))
+        rep.ob('R17.2', '%s:get_entry:probe-advances' % U, len(set(lab)) == len(lab), 'two consecutive probe iterations visit the same slot', where='%s:%d' % (U, u.fn('get_entry').line))
 
 
 def _lookup_args(rep, rule, fn, ctx, u):
@@ -273,6 +276,10 @@ def _lookup_args(rep, rule, fn, ctx, u):
 def _zero_when_true(ret, res):
     """the returned value `ret` is non-zero only if `res` is 0"""
     if isinstance(ret, Term) and is_opaque(res):
+        if ret.op.startswith('cast') and ret.args:
+            return _zero_when_true(ret.args[0], res)
+        if ret.op == '!=' and len(ret.args) == 2 and 0 in (vkey(ret.args[0]), vkey(ret.args[1])):
+            return _zero_when_true(ret.args[0] if vkey(ret.args[1]) == 0 else ret.args[1], res)
         if ret.op == '!' and vkey(ret.args[0]) == vkey(res):
             return True
         if ret.op == '==' and len(ret.args) == 2 and {vkey(ret.args[0]), vkey(ret.args[1])} == {vkey(res), 0}:
@@ -388,6 +395,7 @@ def r175(P, u, rep):
         return _mk_map(ctx)[:1]
     nput = 0
     rpaths = it.explore('rehash', mk)
+    unresolved = any(isinstance(a, Term) and a.op == 'load' for ctx, out in rpaths for e in ctx.events if e[0] == 'call' and e[1] == 'hashmap_put2' for a in e[2])
     L.slot_obligations(rep, 'R17.8', U, 'rehash', rpaths, '%s:%d' % (U, rh.line))
     for ctx, out in rpaths:
         if out[0] != 'ret':
@@ -418,7 +426,7 @@ def r175(P, u, rep):
                    'rehash re-inserts into the old table', where='%s:%d' % (U, rh.line))
         # a live second-loop entry must be copied
         live = [k for k, s in ctx.neq.items() if 0 in s and TOMB in s]
-        if live and not puts:
+        if live and not puts and not unresolved:
             rep.ob('R17.5', '%s:rehash:live-entry-dropped' % U, False, 'a live entry is not copied by rehash', where='%s:%d' % (U, rh.line), facts={'path': ctx.trail})
     if nput == 0:
         rep.undecided('R17.5', '%s:rehash:no-copy-path' % U, 'rehash never calls hashmap_put2')
@@ -670,7 +678,7 @@ def r179(P, rep):
                     L.exclude_char(ctx, w1, 2, 0)
                     words = ['chibicc', w1, 'a.c', 0]
                 return [len(words) - 1, Arr(words, label='argv')]
-            it = L.ArgvInterp(P, mu, {'cut': {w: None for w in WRITERS}, 'opaque': opaque, 'models': {'strcmp': L.m_strcmp, 'strncmp': L.m_strncmp},
+            it = L.ArgvInterp(P, mu, {'cut': {w: None for w in WRITERS}, 'opaque': opaque, 'models': {'strcmp': L.m_strcmp, 'strncmp': L.m_strncmp, 'strlen': L.m_strlen},
                                 'inline_other_units': False, 'loop_limit': 2,
                                 'noreturn': ['error', 'error_at', 'error_tok', 'exit', '_exit', 'abort', '__assert_fail', 'usage']})
             try:
